@@ -206,6 +206,69 @@ def run_concurrent():
     return problems
 
 
+def several_views():
+    """The merged view is the fold with the merge function *supplied to that call*: several views of one scope - live and
+    completed - taken one after another with different, freshly made functions (inline lambdas, whose addresses CPython reuses)."""
+    out = []
+    kept = {}
+
+    async def prog():
+        async with ctx.scope("root", completion=lambda metrics: kept.setdefault("root", metrics)):
+            ctx.record(M1(v=1000))
+            ctx.record(M2(items=(0,)))
+            with ctx.scope("a"):
+                ctx.record(M1(v=100))
+                with ctx.scope("a1"):
+                    ctx.record(M1(v=10))
+                    ctx.record(M2(items=(1,)))
+            with ctx.scope("b"):
+                ctx.record(M1(v=3))
+                ctx.record(M2(items=(2,)))
+            kept["live"] = MetricsContext._context.get()
+            check("live")
+        for _ in range(3):
+            await asyncio.sleep(0)
+
+    want = {"sum": (1113, (0, 1, 2)), "replace": (3, (2,)), "first": (1000, (0,))}
+
+    def view(m, kind):
+        # a new function object for every call, dropped right after it
+        if kind == "sum":
+            got = m.metrics(merge=lambda a, b: b if not_missing_(a) is False else m_sum(a, b))
+        elif kind == "replace":
+            got = m.metrics(merge=lambda a, b: b)
+        else:
+            got = m.metrics(merge=lambda a, b: b if not_missing_(a) is False else a)
+        d = {type(x): x for x in got}
+        return (d[M1].v if M1 in d else None, d[M2].items if M2 in d else None)
+
+    def check(label):
+        m = kept["root"] if label != "live" else kept["live"]
+        import gc
+        for kind in ("sum", "replace", "first", "replace", "sum", "first", "sum"):
+            gc.collect()
+            try:
+                got = view(m, kind)
+            except Exception as e:  # noqa
+                out.append(f"{label} scope, merged view with a fresh {kind!r} function raised {e!r}")
+                return
+            if got != want[kind]:
+                out.append(f"{label} scope: the merged view taken with a fresh {kind!r} merge function gives {got}, folding with that "
+                           f"function gives {want[kind]} (an earlier view was taken with another function)")
+                return
+    asyncio.run(prog())
+    if "root" not in kept:
+        out.append("the root scope never completed")
+    elif not out:
+        check("completed")
+    return out
+
+
+def not_missing_(v):
+    from haiway import MISSING
+    return v is not MISSING
+
+
 def main():
     sys.stdin.read()
 
@@ -221,6 +284,10 @@ def main():
         n += 2
         pc = run_concurrent()          # (last: asyncio.run leaves the thread without a current event loop)
         p = pc[0] if pc else None
+    if not p:
+        n += 1
+        pv = several_views()
+        p = pv[0] if pv else None
     if p:
         print(json.dumps(dict(reproduced=True, detail=dict(problem=p, seed=seed, program=n), cases_tried=n), default=str))
     else:
